@@ -119,7 +119,7 @@ PROPERTIES = {
                      'CONCURRENCY is over-approximated by a rely condition (no interleaving is enumerated): before every environment operation other processes may replace any '
                      'module file by a complete module of any declaration, remove or write bytecode, change stamps; they never delete a module file and never touch this process\' temporary file; '
                      'threads of one process sharing sys.modules are outside the statement (processes)',
-                     'initial state: every file under __pkts__ was written by a completed or crashed run of the CURRENT code (torn files left by the in-place writer of earlier versions are not assumed away: they are unreachable after fix 9d79700)',
+                     'initial state: HonestCache + ModulesOK as for C15 (every module file was written completely by this code for some declaration, or is blank); a crashed run of the CURRENT code leaves such a state (that is the crash-point obligation); torn files left by the in-place writer of earlier versions are outside it',
                      'the pack_impl / unpack_impl attributes of a packet class are plain functions; file-system operations other than the modelled failures succeed'],
         explanation='per-call contract with crash-point obligations (invariant after every file-system operation) and rely havoc before every operation; '
                     'post: the class gets the code of its own declaration or keeps the generic drivers, and the definition does not fail',
